@@ -53,7 +53,7 @@ Definition act_avoids (S : N -> bool) (a : option (N * bytes)) : bool :=
 Definition acts_avoid (S : N -> bool) (hk : hook_oracle) : bool :=
   let a := h_acts hk in
   act_avoids S (ha_read a) && act_avoids S (ha_write a) && act_avoids S (ha_written a)
-  && act_avoids S (ha_written2 a) && act_avoids S (ha_sub a) && act_avoids S (ha_unsub a).
+  && act_avoids S (ha_sub a) && act_avoids S (ha_unsub a).
 
 Fixpoint session_allowed (st : state) (S : N -> bool) (s : session) : Prop :=
   match s with
@@ -87,7 +87,7 @@ Definition act_target (a : option (N * bytes)) (h : N) : bool :=
 Definition hook_assigns (hk : hook_oracle) (h : N) : bool :=
   let a := h_acts hk in
   act_target (ha_read a) h || act_target (ha_write a) h || act_target (ha_written a) h
-  || act_target (ha_written2 a) h || act_target (ha_sub a) h || act_target (ha_unsub a) h.
+  || act_target (ha_sub a) h || act_target (ha_unsub a) h.
 
 (** * Notifications *)
 
